@@ -45,3 +45,29 @@ PROPS["C16"] = dict(
     level_note="Bounded: sequences of <= 4 (quick) / 5 (thorough) mutators over a 2-kid alphabet; use-after-free and leaks are observed by ASan/LSan on the executed sequences only (leak check every 25 cases and at exit).",
     design_ref="DESIGN.md section 7, C16",
 )
+
+
+PROPS["C15"] = dict(
+    level="model_checking", leak_every=200, exhaustive=True,
+    stages=lambda tier, seed: [
+        mc("graph_clm", "MC_C15", "MC_C15_graph_clm.cfg"),
+        mc("graph_hdr", "MC_C15", "MC_C15_graph_hdr.cfg"),
+        mc("seq", "MC_C15", "MC_C15_seq_%s.cfg" % tier),
+        mc("cbsites", "MC_C15", "MC_C15_graph_clm.cfg", expand=G.c15_to_callbacks),
+        gen("walk", G.c15_walks(60 if tier == "quick" else 1500, 200)),
+    ],
+    rule="(graph) every reachable state of the map over names {a,b,c} x every operation of a 90-operation alphabet "
+         "(set INT/STR/BOOL/JSON obj, arr, malformed, scalar, NULL text; names a, b, empty, NULL; with and without "
+         "replace; get of each type; delete one/all), one implementation test per transition, on builder claims and "
+         "builder headers, and the same behaviours on the jwt_t inside a generate callback and a verify callback; "
+         "(seq) all sequences up to length 3 (quick) / 4 (thorough) over a 16-operation alphabet; (walk) seeded "
+         "random walks of 200 operations with 64-bit extremes. After every operation the whole header and claim "
+         "objects are read back and compared with the model. distinct = distinct script hashes.",
+    assumptions=ASSUME_COMMON,
+    level_text="TLC explores the complete state graph of the typed-map specification (78 states, every operation "
+               "from every state) and checks the map laws on it; each transition is replayed into libjwt at four "
+               "call sites and every result, error code and the full map read back must equal the model's.",
+    level_note="Names and values are a finite universe (ASCII names a/b/c, 12 value classes); merge of nameless "
+               "arrays and JSON get of scalar members are left unconstrained because the property does not state them.",
+    design_ref="DESIGN.md section 7, C15",
+)
